@@ -21,7 +21,8 @@ Inductive aval :=
 Inductive value := V (a : aval) | VExp (l : list aval).   (* SigmaExpansion *)
 
 (* SigmaDetectionItem: field (None = keyword), values, value_linking = AND, negated *)
-Record ditem := mkI { i_field : option str; i_vals : list value; i_all : bool; i_neg : bool }.
+(* i_applied: applied_processing_items (identifiers of the processing items that replaced / touched the item) *)
+Record ditem := mkI { i_field : option str; i_vals : list value; i_all : bool; i_neg : bool; i_applied : list str }.
 (* SigmaDetection: items / nested detections, item_linking = AND *)
 Inductive det := DI (i : ditem) | DD (l : list det) (land : bool).
 
@@ -48,6 +49,20 @@ Definition walk_top (tr : ditem -> rep) (d : det) : det :=
 
 Definition gated (im : ditem -> bool) (tr : ditem -> rep) (i : ditem) : rep :=
   if im i then tr i else Keep.
+
+(* processing_item_applied(r) on a returned replacement (base.py l.125): every detection item of the
+   replacement is marked with the identifier of the processing item (tracking.py); a one-to-many
+   mapping's copies start with the marks of the replaced item (fix ab135a8) *)
+Definition add_id (id : str) (l : list str) : list str := if mem_str id l then l else id :: l.
+Definition mark_item (id : option str) (i : ditem) : ditem :=
+  match id with
+  | Some x => mkI (i_field i) (i_vals i) (i_all i) (i_neg i) (add_id x (i_applied i))
+  | None => i
+  end.
+Fixpoint mark_det (id : option str) (d : det) : det :=
+  match d with DI i => DI (mark_item id i) | DD l land => DD (map (mark_det id) l) land end.
+Definition marked (id : option str) (tr : ditem -> rep) (i : ditem) : rep :=
+  match tr i with Repl d => Repl (mark_det id d) | x => x end.
 
 (* ---------- SigmaString helpers used by transformations ---------- *)
 (* SigmaString._merge_strs *)
@@ -102,11 +117,11 @@ Definition fieldmap_item (i : ditem) : rep :=
   if fres_some mp && fm (i_field i) then
     let vals2 := match i_field i with None => map wild_value vals1 | Some _ => vals1 end in
     match mp with
-    | FOne s => Repl (DI (mkI (Some s) vals2 (i_all i) (i_neg i)))
-    | FMany l => Repl (DD (map (fun s => DI (mkI (Some s) vals2 (i_all i) (i_neg i))) l) (i_neg i))
+    | FOne s => Repl (DI (mkI (Some s) vals2 (i_all i) (i_neg i) (i_applied i)))
+    | FMany l => Repl (DD (map (fun s => DI (mkI (Some s) vals2 (i_all i) (i_neg i) (i_applied i))) l) (i_neg i))
     | FNone => Keep
     end
-  else if rm then Repl (DI (mkI (i_field i) vals1 (i_all i) (i_neg i))) else Keep.
+  else if rm then Repl (DI (mkI (i_field i) vals1 (i_all i) (i_neg i) (i_applied i))) else Keep.
 
 (* rule.fields (apply l.209-212) *)
 Definition fieldmap_fields (fs : list str) : list str := flat_map afn_list fs.
@@ -137,7 +152,7 @@ Definition value_item (tv : option str -> value -> option (list value)) (i : dit
   if existsb (fun p => is_some (snd p)) rs then
     Repl (DI (mkI (i_field i)
                   (flat_map (fun p => match snd p with Some l => l | None => [fst p] end) rs)
-                  (i_all i) (i_neg i)))
+                  (i_all i) (i_neg i) (i_applied i)))
   else Keep.
 
 (* StringValueTransformation.apply_value: only SigmaString values *)
@@ -291,16 +306,18 @@ Definition fc_match (c : fcond) (f : option str) : bool :=
   | FExc l, Some s => negb (mem_str s l)
   end.
 (* detection item conditions (conditions/values.py), cond = any / all *)
-Inductive icond := IIsNull (call : bool) | IWild (call : bool).
+Inductive icond := IIsNull (call : bool) | IWild (call : bool) | IApplied (id : str).   (* processing_item_applied *)
 Definition quant (call : bool) (p : value -> bool) (vs : list value) : bool :=
   if call then forallb p vs else existsb p vs.
 Definition ic_match (c : icond) (i : ditem) : bool :=
   match c with
   | IIsNull call => quant call (fun v => match v with V ANull => true | _ => false end) (i_vals i)
   | IWild call => quant call (fun v => match v with V (AStr _ s) => contains_special s | _ => false end) (i_vals i)
+  | IApplied id => mem_str id (i_applied i)
   end.
 Record conds := mkC {
-  c_rule : bool;               (* match_rule_conditions (evaluated by the harness from the log source) *)
+  c_id : option str;           (* identifier of the processing item *)
+  c_rule : bool;               (* match_rule_conditions (evaluated by the harness: log source, items applied before) *)
   c_fconds : list fcond; c_fneg : bool;     (* field_name_conditions, linking all, field_name_cond_not *)
   c_iconds : list icond; c_ineg : bool      (* detection_item_conditions, linking all, detection_item_cond_not *)
 }.
@@ -349,10 +366,10 @@ Fixpoint dict_set {A} (k : str) (v : A) (l : list (str * A)) : list (str * A) :=
   end.
 
 Definition apply_fieldmap (c : conds) (afn : option str -> fres) (r : rule) : rule :=
-  let r' := map_dets (walk_top (gated (im_of c) (fieldmap_item (fm_of c) afn))) r in
+  let r' := map_dets (walk_top (marked (c_id c) (gated (im_of c) (fieldmap_item (fm_of c) afn)))) r in
   mkR (r_dets r') (r_cond r') (fieldmap_fields (fm_of c) afn (r_fields r)).
 Definition apply_values (c : conds) (tv : option str -> value -> option (list value)) (r : rule) : rule :=
-  map_dets (walk_top (gated (im_of c) (value_item tv))) r.
+  map_dets (walk_top (marked (c_id c) (gated (im_of c) (value_item tv)))) r.
 
 Definition apply_tspec (c : conds) (t : tspec) (r : rule) : rule :=
   match t with
@@ -361,7 +378,7 @@ Definition apply_tspec (c : conds) (t : tspec) (r : rule) : rule :=
   | TPrefix p => apply_fieldmap c (afn_prefix p) r
   | TSuffix s => apply_fieldmap c (afn_suffix s) r
   | TDrop => map_dets (walk_top (gated (im_of c) drop_item)) r
-  | TAddCond name d neg => mkR (dict_set name d (r_dets r)) (add_cond_text name neg (r_cond r)) (r_fields r)
+  | TAddCond name d neg => mkR (dict_set name (mark_det (c_id c) d) (r_dets r)) (add_cond_text name neg (r_cond r)) (r_fields r)
   | TSetValue a => apply_values c (tv_set a) r
   | TCase m => apply_values c (tv_case m) r
   | TMapString m => apply_values c (tv_mapstring m) r
